@@ -1133,9 +1133,6 @@ class Converter(BaseConverter):
                 has_with_generic, self.gen_structure_attrs_fromdict
             )
         self.register_unstructure_hook_factory(
-            is_annotated, self.gen_unstructure_annotated
-        )
-        self.register_unstructure_hook_factory(
             is_hetero_tuple, self.gen_unstructure_hetero_tuple
         )
         self.register_unstructure_hook_factory(is_namedtuple)(
@@ -1164,7 +1161,6 @@ class Converter(BaseConverter):
             lambda t: self.get_unstructure_hook(get_newtype_base(t)),
         )
 
-        self.register_structure_hook_factory(is_annotated, self.gen_structure_annotated)
         self.register_structure_hook_factory(is_mapping, self.gen_structure_mapping)
         self.register_structure_hook_factory(is_counter, self.gen_structure_counter)
         self.register_structure_hook_factory(
@@ -1174,6 +1170,13 @@ class Converter(BaseConverter):
         self.register_structure_hook_factory(
             lambda t: get_newtype_base(t) is not None, self.get_structure_newtype
         )
+
+        # `Annotated[list, ...]` has `list` as its `__origin__`, so the collection
+        # predicates above match it too; these need to take precedence over them.
+        self.register_unstructure_hook_factory(
+            is_annotated, self.gen_unstructure_annotated
+        )
+        self.register_structure_hook_factory(is_annotated, self.gen_structure_annotated)
 
         # We keep these so we can more correctly copy the hooks.
         self._struct_copy_skip = self._structure_func.get_num_fns()
